@@ -64,5 +64,5 @@ func c16Socket(kinds []int) {
 }
 
 func VerifC16Socket() {
-	c16Socket([]int{xFailPlain, xFailSafe, xFailClient, xFailWrapSafe, xFailPanic})
+	c16Socket([]int{xFailPlain, xFailSafe, xFailClient, xFailWrapSafe, xFailPanic, kFailUnsafeWrapsSafe})
 }
